@@ -128,6 +128,9 @@ def rule_r1(facts, rep, rid="C10-R1"):
             tgt = fb.last_seg(fb.callee(body))
         elif fb.show(body).replace(" ", "") == "self.node.clone()":
             tgt = "<same>"
+        elif body.get("k") == "mcall" and body.get("name") in ("clone", "to_owned") and (body.get("recv") or {}).get("k") == "path" and \
+                arm["pat"].get("k") == "p_bind" and "sub" not in arm["pat"] and body["recv"].get("id") == arm["pat"].get("id"):
+            tgt = "<same>"          # `other => other.clone()`: the catch-all binds the scrutinee itself
         else:
             tgt = "?" + fb.show(body)[:40]
         for v in vs:
@@ -185,7 +188,8 @@ def rule_r2(facts, rep, rid="C10-R2"):
     okm = False
     if lits:
         t = lits[0]
-        ch = _field(t, "children")
+        from .common import through_lets
+        ch = through_lets(ctx(g), _field(t, "children"))
         names = []
         r = ch
         while r is not None and r.get("k") == "mcall":
